@@ -161,6 +161,21 @@ def run(cfg, V):
         if den is not None:
             acc = acc / den
         o["built"] = (acc.GetValue(), qmap(acc))
+        if all(getattr(U[c].tobase, "__a__", 0.0) == 0.0 for c, _e in comps):
+            # the same construction with every component replaced by the base unit of its quantity type; the quotient must be the pure number x*K
+            bnum, bden = None, None
+            for c, e in comps:
+                bu = db.GetUnits(U[c].quantity_type)[0]
+                f = mk(1.0, bu) ** abs(e) if abs(e) > 1 else mk(1.0, bu)
+                if e > 0:
+                    bnum = f if bnum is None else bnum * f
+                else:
+                    bden = f if bden is None else bden * f
+            bacc = bnum if bnum is not None else 1.0
+            if bden is not None:
+                bacc = bacc / bden
+            ratio = acc / bacc
+            o["ratio"] = (ratio.GetValue(), qmap(ratio))
         if len(comps) == 1 and mk(1.0, comps[0][0]).GetQuantityType() in db.categories_to_quantity_types and getattr(U[comps[0][0]].tobase, "__a__", 0.0) == 0.0:
             # a single-component power / reciprocal row of a scale-only unit (an offset has no meaning under an exponent): the built scalar re-expressed in the base unit with the same exponent (exponent conversion route)
             c, e = comps[0]
@@ -216,6 +231,11 @@ def props(cfg, T, obs):
         # base magnitude of the value built by the real operators from the components (x in the first component, 1 elsewhere)
         P.append(("a Scalar in the named unit and the same amount built with * and / from Scalars in the component units are the same physical amount",
                   zabs(named - mag_of(bv, bq) * rv(Fraction(int(cfg["mult"][0]), int(cfg["mult"][1])))) <= tol * zabs(named) + rv(Fraction(1, 10**13))))
+    if "ratio" in obs:
+        rv_, rq = obs["ratio"]
+        mult = rv(Fraction(int(cfg["mult"][0]), int(cfg["mult"][1])))
+        P.append(("dividing the built Scalar by the same construction in base units gives the dimensionless factor of the row",
+                  z3.And(z3.BoolVal(rq == []), zabs(named - term(rv_) * mult) <= tol * zabs(named) + rv(Fraction(1, 10**13)))))
     if "built_in_base" in obs:
         mult = rv(Fraction(int(cfg["mult"][0]), int(cfg["mult"][1])))
         P.append(("the built Scalar converted to the base unit (same exponent) equals the named row's base amount",
